@@ -802,6 +802,35 @@ def run_empty(ctx):
     ctx.case()
 
 
+def run_one_feature_list(ctx):
+    """features given as a LIST OF ONE column whose cells are partly missing: a list means the joint form (rows coincide when the
+    selected columns agree; a missing cell is one distinct empty value), whatever the length of the list.  Expected value: the fraction
+    of coinciding row pairs counted directly (C02_pc_counts), as an exact rational."""
+    import pyrepseq.entropy as en
+    from fractions import Fraction
+    rng = ctx.rng
+    for t in range(6 if ctx.quick else 60):
+        n = rng.randint(3, 9)
+        cells = [rng.choice(['A', 'B', 'A', None, None]) for _ in range(n)]
+        if None not in cells:
+            cells[rng.randrange(n)] = None
+        keys = ['' if c is None else c for c in cells]
+        num = sum(1 for i in range(n) for j in range(n) if i != j and keys[i] == keys[j])
+        q = Fraction(num, n * (n - 1))
+        df = pd.DataFrame(dict(s=pd.Series(cells, dtype=object), g=[rng.choice('ab') for _ in range(n)]))
+        base = rng.choice([2.0, math.e, 10.0])
+        r = call_impl(en.renyi2_entropy, df, ['s'], base=base)
+        ctx.count('one_feature_list_with_missing_cells')
+        ctx.case(nontrivial_key=('one-feature-list', tuple(keys)) if 0 < q < 1 else None)
+        ok = r[0] == 'ok' and ((q == 0 and (math.isinf(float(r[1])) or float(r[1]) > 700)) or
+                               (q > 0 and abs(base ** (-float(r[1])) - float(q)) <= 1e-9))
+        if not ok:
+            ctx.violation('property', 'renyi2_entropy(table with column s = %s, features=[\'s\'], base=%r) = %s, but the joint pc of the '
+                          'selected column is %s (a missing cell is one distinct empty value) and the entropy its -log' % (cells, base, r, q),
+                          dict(case=dict(cells=cells, base=base, expected=str(q)), site='entropy.renyi2_entropy[one-feature list]'),
+                          site='entropy.renyi2_entropy[one-feature list]')
+
+
 def run(ctx):
     rng = ctx.rng
     ctx.rule = ('(a) every table with <= %d rows over group keys {b, a, c} and sequences {A, B}: pc_conditional, pc_grouped_cross, pcDelta_grouped(bins=0), '
@@ -823,6 +852,7 @@ def run(ctx):
         return
     ctx.exhaustive = True
     run_empty(ctx)
+    run_one_feature_list(ctx)
     cases = [gen_case(rng, ctx.quick) for _ in range(250 if ctx.quick else 4000)]
     # every rarely used form at least a few times whatever the seed
     for x in EXTRAS:
